@@ -96,6 +96,22 @@ Definition tleaf (e : expr) (w : list item) : Prop :=
 
 Definition denotes : expr -> list item -> Prop := den item tleaf.
 
+(** The labels themselves: every leaf of a validated tree carries the index of the innermost
+    [||] branch it sits in (0 outside any [||]); a composite word sits where its pieces sit. *)
+Fixpoint levels_ok (lvl : N) (e : expr) : bool :=
+  match e with
+  | Terminal _ _ l _ | NontermRef _ l _ | Command _ _ l _ => N.eqb l lvl
+  | Subword c l _ => N.eqb l lvl && levels_ok lvl c
+  | Sequence cs _ | Alternative cs _ => forallb (levels_ok lvl) cs
+  | Fallback cs _ =>
+      (fix go (i : N) (l : list expr) : bool :=
+         match l with
+         | [] => true
+         | c :: r => levels_ok i c && go (N.succ i) r
+         end) 0 cs
+  | Optional c _ | Many1 c _ | DistDescr c _ _ => levels_ok lvl c
+  end.
+
 (** *** What an automaton accepts, in items *)
 
 Definition wlab (x : inp) : option witem :=
